@@ -329,7 +329,8 @@ def _even(rc: RuleCtx):
         # A2: pairs (cmap[i], cmap[i+1]), i = 0, 2, 4, ...
         Ln = ev.length_of(cmap)
         nonempty = canon_sign(ev.length_of(cands), OPS["!="])        # a fast exit for "no candidate at all" changes nothing here
-        if lo.is_zero() and hi.equals(Ln) and step.is_const() == 2 and (guard.kind == "true" or g_implies(nonempty, guard)):
+        # (the candidates come in pairs - A1 - so their number is even: stopping at Ln or at Ln - 1 visits the same positions 0, 2, ..)
+        if lo.is_zero() and (hi.equals(Ln) or hi.equals(Ln - C(1))) and step.is_const() == 2 and (guard.kind == "true" or g_implies(nonempty, guard)):
             res.ok("A2", "postprocessing.add_points_even:pairs", "mapped candidates are processed as (left, right) pairs")
         else:
             res.violation("A2", fi.module, fi.name, fi.node, "the mapped candidates are not processed as consecutive (left, right) pairs",
